@@ -14,7 +14,7 @@ pub fn def() -> PropDef {
         level: "exploration",
         profile,
         oracle: |_cfg| Box::new(C05::default()),
-        quick_runs: 40_000,
+        quick_runs: 80_000,
         thorough_runs: 1_000_000,
         panic_is_violation: false,
         rule: "run = seeded gossip-only history (no actor reuse) with reordering, loss, duplication, out-of-causal-order subsets, load_incremental streams and restarts with/without retained orphans; the harness tracks the delivered set D per replica, A = greatest dep-closed subset of D; after every delivery heads = max(A), applied set = A, state = R1(A), get_missing_deps = model; non-trivial = at least one change was held for >= 1 event; distinct by digest of the (held, released) sequence",
